@@ -4,6 +4,7 @@ open Common
 (* protocol (all numbers decimal, all byte strings hex; "-" is the empty string):
    H <seed> <hex>            MurmurHash64A
    N <seed> <hex>            MurmurHashNative
+   B <seed> <hex>            MurmurHash64B
    A <align> <seed> <hex>    MurmurHash64A and Native on the string placed at a start address = align (mod 16)
    M <seed> <len> <hex>      MurmurHash64A(key, len) with memory longer than len
    F <seed> <hex> ...        HashCallback(seed) over the pieces
@@ -19,6 +20,8 @@ let () =
       match split_ws line with
       | [ "H"; seed; h ] -> print_endline (string_of_z (murmur64a (bytes_of h) (z_of_string seed)))
       | [ "N"; seed; h ] -> print_endline (string_of_z (murmur_native (bytes_of h) (z_of_string seed)))
+      | [ "B"; seed; h ] ->
+        (match murmur64b (bytes_of h) (z_of_string seed) with Some v -> print_endline (string_of_z v) | None -> print_endline "FUEL")
       | [ "R"; seed; h ] -> print_endline (string_of_z (murmur_ref (bytes_of h) (z_of_string seed)))
       | [ "A"; _align; seed; h ] -> print_endline (string_of_z (murmur64a (bytes_of h) (z_of_string seed)))
       | [ "M"; seed; len; h ] -> print_endline (string_of_z (murmur64a_mem (bytes_of h) (z_of_string len) (z_of_string seed)))
